@@ -67,13 +67,19 @@ def stop_point_runs(chk, n_cfg):
 def free_runs(chk, n):
     from schemathesis.engine.phases import PhaseName
     rng = chk.rng
-    for _ in range(n):
+    all_phases = [PhaseName.EXAMPLES, PhaseName.COVERAGE, PhaseName.FUZZING, PhaseName.STATEFUL_TESTING]
+    # every run of the check: the failure limit is reached in the FIRST of several phases, one worker (the later phases are
+    # still opened and closed, as skipped: the run was not interrupted)
+    designed = [(2, 1, {"/op0": 1, "/op1": None}, 1, [PhaseName.COVERAGE, PhaseName.FUZZING]),
+                (1, 1, {"/op0": 1}, 1, all_phases)]
+    for j in range(n + len(designed)):
         n_ops = rng.randint(1, 5)
         workers = rng.choice([1, 2, 3])
         bad = {f"/op{i}": rng.choice([None, None, 1, 3]) for i in range(n_ops)}
         mf = rng.choice([None, None, 1, 2])
-        phases = rng.choice([[PhaseName.FUZZING], [PhaseName.COVERAGE, PhaseName.FUZZING],
-                             [PhaseName.EXAMPLES, PhaseName.COVERAGE, PhaseName.FUZZING, PhaseName.STATEFUL_TESTING]])
+        phases = rng.choice([[PhaseName.FUZZING], [PhaseName.COVERAGE, PhaseName.FUZZING], all_phases])
+        if j < len(designed):
+            n_ops, workers, bad, mf, phases = designed[j]
         app = E.make_app(lambda p, k: 500 if bad.get(p) is not None and k >= bad[p] else 200)
         with E.Server(app) as srv:
             evs = E.run_engine(E.load_schema(srv.url, n_ops),
